@@ -484,6 +484,36 @@ def register(T, repo):
                    ('parser', P_self, lambda A: MathParserS(A['src']))]))
     T.mathparser_spec = MathParserS
 
+    # --------------------------------------------------------- parser_work
+    def pw_ghost(ex, st, mode, vals):
+        # parser_work(latex) re-binds self.latex: two texts are involved,
+        # `outer` = self.latex at entry, `src` = the text being parsed
+        if mode == 'proof':
+            return {'src': fresh_seq('str', 'src', st.assume),
+                    'outer': fresh_seq('str', 'outer', st.assume)}
+        return {'src': lift_str(vals['latex']),
+                'outer': lift_str(vals['self'].fields['latex'])}
+
+    def no_flows(src):
+        return ListS(tm.DocList(src), lambda n: zint(n) == 0, 'extracted')
+
+    c = T.add(FContract(
+        PAR + 'parser_work', ghosts=pw_ghost,
+        # flows collected while a text is parsed refer to that text; the
+        # caller hands over an empty flow list and decides afterwards
+        # whether the flows belong to the document (main text) or are
+        # dropped (definition texts)
+        params=lambda G: {'self': ParserS(G['outer'], no_flows(G['outer'])),
+                          'latex': cm.SameS(G['src'])},
+        result=lambda A: ListS(tm.TokS(lambda ex, t: tm.out_final(
+            ex, t, A['src']), name='pw'), None, 'pw_result'),
+        post_objs=[('parser', P_self, lambda A: ParserS(
+            A['outer'], ListS(tm.DocList(A['src']), None, 'extracted')))]))
+    lp = c.loop(0)
+    lp.shapes['out'] = lambda E: tm.DocList(E['src'])
+    lp.invs.append(('last-in-range', lambda E: And(
+        0 <= zint(E['last']), zint(E['last']) <= zint(E['toks'].length()))))
+
     # --------------------------------------------- remove_pure_action_lines
     RPA = PAR + 'remove_pure_action_lines'
 
